@@ -205,6 +205,21 @@ func c17Gen(g *Gen) {
 		e2e(1, 40, 1, 0)
 	}
 
+	// G: the real TCP listener in front of the real orchestrator: descriptor number reused before the old
+	// connection's sink is closed (observed trace = input of the case), and a single connection for comparison
+	for i := 0; i < g.Pick(2, 10); i++ {
+		if z := c17ListenerDemo(true); z != nil {
+			g.Count("G:listener-two-connections")
+			g.Case(1, nil, z)
+		} else {
+			g.Count("G:listener-run-incomplete")
+		}
+	}
+	if z := c17ListenerDemo(false); z != nil {
+		g.Count("G:listener-one-connection")
+		g.Case(1, nil, z)
+	}
+
 	// E: random longer schedules
 	for i := 0; i < g.Pick(4000, 150000); i++ {
 		c17Random(g, emit, false)
